@@ -250,6 +250,12 @@ def main(argv=None):
     tasks = mod.tasks(a.tier, seed)
     if a.only:
         tasks = [t for t in tasks if a.only in t.get('harness', '')]
+    if a.tier == 'thorough' and all('est' in t for t in tasks):
+        # under a wall-clock budget: the cheaper half first (breadth: everything the quick tier covers and more), then the expensive
+        # half largest-first (packing); what the budget cuts off is then the deep end, and it is reported as skipped
+        srt = sorted(tasks, key=lambda t: t['est'])
+        half = len(srt) // 2
+        tasks = srt[:half] + sorted(srt[half:], key=lambda t: -t['est'])
     budget = a.budget or mod.BUDGET[a.tier]
     results, skipped = run_pool('checks.' + a.pid, tasks, a.jobs, budget)
 
